@@ -63,6 +63,27 @@ class Factory(opp.FunctorWorkerFactory):
         return w
 
 
+_TRACED = {}
+
+
+def traced_class(cls):
+    if cls not in _TRACED:
+        def __getattribute__(self, name):
+            if not name.startswith("__"):
+                s = S()
+                if s is not None:
+                    s.yield_point()
+            return object.__getattribute__(self, name)
+
+        def __setattr__(self, name, value):
+            s = S()
+            if s is not None:
+                s.yield_point()
+            object.__setattr__(self, name, value)
+        _TRACED[cls] = type("Traced" + cls.__name__, (cls,), {"__getattribute__": __getattribute__, "__setattr__": __setattr__})
+    return _TRACED[cls]
+
+
 class RecQueue(prims.SimQueue):
     """manager queue that also remembers who put what (for arrival-order and per-worker chunk counts)"""
 
@@ -161,8 +182,8 @@ def run_pool_case(case, max_steps=None):
     total_items = sum(c["n"] for c in calls)
     if max_steps is None:
         max_steps = 30000 + 4000 * total_items + 3000 * len(calls) * max(1, case["workers"])
-    gran_op = spec.get("gran", "line") == "op"
-    sched = Sched(schedules.make_chooser(spec), SUT_FILES, max_steps=max_steps * (3 if gran_op else 1), opcodes=gran_op)
+    gran_attr = spec.get("gran", "line") == "attr"
+    sched = Sched(schedules.make_chooser(spec), SUT_FILES, max_steps=max_steps * (2 if gran_attr else 1))
     res = Result()
     res.sched = sched
     cfg = {"begin_delay": case.get("begin_delay", 0), "slow": {int(k): v for k, v in (case.get("slow") or {}).items()},
@@ -184,6 +205,10 @@ def run_pool_case(case, max_steps=None):
             else:
                 pool = opp.FunctorPool([SimWorker(ctx, quota, res.log, cfg) for _ in range(case["workers"])], ctx, wq, rq)
             res.pool = pool
+            if gran_attr:
+                # every read and write of an attribute of the pool object (the state the consumer, the sending thread and the
+                # replace thread share) becomes a preemption point, also between two reads inside one source line
+                pool.__class__ = traced_class(type(pool))
             with pool:
                 for ci, call in enumerate(calls):
                     if ready_at == ci:
